@@ -52,6 +52,8 @@ var c05Strategies = []string{
 	"structural-share",       // 17 PS/BLS share with altered component structure
 	"structural-reveal",      // 18 key with altered component structure, commitment consistent
 	"byte-mutated-any",       // 19 byte-level mutation of any one message kind
+	"short-share",            // 20 a well-formed share with one component too few (PS: one y fewer; BLS: one byte fewer), instead of the valid one
+	"long-share",             // 21 ... one component too many
 }
 
 type c05Case struct {
@@ -403,6 +405,22 @@ func runC05(c c05Case) *vh.Outcome {
 			case 17:
 				if kind == kShare && victim[f.To] {
 					return []*sim.Frame{mk(kind, structural(c.Backend, body, c.Op))}
+				}
+			case 20, 21:
+				if kind == kShare && victim[f.To] {
+					op := asnmut.Op{Field: 1, Kind: 0} // PS: XYs.Ys, drop the last element
+					if strat == 21 {
+						op.Kind = 3 // duplicate the last element
+					}
+					nb := structural(c.Backend, body, op)
+					if c.Backend != "ps" {
+						if strat == 20 && len(body) > 0 {
+							nb = append([]byte(nil), body[:len(body)-1]...)
+						} else {
+							nb = append(append([]byte(nil), body...), 0x01)
+						}
+					}
+					return []*sim.Frame{mk(kind, nb)}
 				}
 			case 18:
 				if kind == kCommit {
